@@ -129,6 +129,13 @@ def replay_behaviour(hist, geom, jax, jnp):
                 if d:
                     return bad("to_scalar_multi_image: " + d)
                 layout = tuple(((t[0], t[1]), c) for t, c in st["layout"])
+                # the same round trip as the library wraps it around a plain array model (C20, conventional mode)
+                import ginjax.ml  # noqa: F401
+                import ginjax.models as gmodels
+                wrapped, _ = gmodels.ModelWrapper(objs[x].D, (lambda a: a), geom.Signature(layout), objs[x].is_torus)(objs[x])
+                d = diff(after, wrapped)
+                if d:
+                    return bad("ModelWrapper(identity): " + d)
                 objs[x] = s.from_scalar_multi_image(layout)
             elif op == "ToScalar":
                 objs[x] = objs[x].to_scalar_multi_image()
